@@ -400,6 +400,7 @@ def _c01(tag):
                     unwind=U, timeout=timeout, tiers=tiers, validate=6, cxxflags=['-fno-access-control'], object_bits=12, coro_style=style, atomic_fn='model_pass', abort_fn='basic_smr4scanE|basic_smr9help_scanE|basic_smr12classic_scanE|basic_smr12inplace_scanE'))
     co('protect_vs_retire_pass_T2_K4', 2, 4)
     co('protect_vs_retire_pass_T2_K6_u2', 2, 6, nupd=2, nread=2, U=5)
+    co('protect_vs_retire_pass_T2_K5_u2_goto', 2, 5, nupd=2, nread=1, U=5, style='goto')
     co('protect_vs_retire_pass_T2_K8_u2', 2, 8, nupd=2, nread=2, U=6, tiers=('thorough',), timeout=3000)
     return qs
 CHECKS['C01'] = {
